@@ -387,7 +387,7 @@ def run_cases(ck, cases, exe_impl, exe_model):
 def generate(ck):
     rng = core.SplitMix64(ck.seed * 1000003 + 17)
     cases = []
-    n = 2000 if ck.tier == "quick" else 30000
+    n = 1600 if ck.tier == "quick" else 30000
     for i in range(n):
         B = rng.choice(BS)
         profile = rng.weighted([("small", 3), ("deep", 4), ("slice", 3), ("mixed", 2)])
